@@ -64,7 +64,7 @@ example : (3 - 1) * 5 ≠ 3 * (5 - 1) := by decide
 theorem full_is_residual_cov (n : Nat) (x : Fin n → Row K) (dof : K) (p j k : Nat) :
     covFromResiduals .full (List.ofFn x) (some dof) p j k
       = (∑ i, (x i j - (∑ i', x i' j) / (n : K)) * (x i k - (∑ i', x i' k) / (n : K))) / dof := by
-  simp only [covFromResiduals, estimate2, estimateC, covFullC, gram, demean, colMean, colSum,
+  simp only [covFromResiduals, estimate2, estimateC, covFullC, fullNorm, gram, demean, colMean, colSum,
     Option.getD_some, List.map_map, List.map_ofFn, List.sum_ofFn, List.length_ofFn]
   rfl
 
@@ -73,7 +73,7 @@ theorem full_is_residual_cov_natural_dof (n : Nat) (x : Fin n → Row K) (p j k 
     covFromResiduals .full (List.ofFn x) none p j k
       = (∑ i, (x i j - (∑ i', x i' j) / (n : K)) * (x i k - (∑ i', x i' k) / (n : K)))
         / ((n - 1 : Nat) : K) := by
-  simp only [covFromResiduals, estimate2, estimateC, covFullC, gram, demean, colMean, colSum,
+  simp only [covFromResiduals, estimate2, estimateC, covFullC, fullNorm, gram, demean, colMean, colSum,
     Option.getD_none, List.map_map, List.map_ofFn, List.sum_ofFn, List.length_ofFn, dofResiduals]
   rfl
 
@@ -81,7 +81,7 @@ theorem full_is_residual_cov_natural_dof (n : Nat) (x : Fin n → Row K) (p j k 
 theorem diag_is_diagonal_of_full (rows : List (Row K)) (dof : Option K) (p j k : Nat) :
     covFromResiduals .diag rows dof p j k
       = if j = k then covFromResiduals .full rows dof p j j else 0 := by
-  simp only [covFromResiduals, estimate2, estimateC, varianceC, covFullC]
+  simp only [covFromResiduals, estimate2, estimateC, varianceC, covFullC, fullNorm]
 
 /-! ### Schäfer–Strimmer shrinkage ('shrinkage_diag') -/
 
@@ -91,14 +91,15 @@ theorem sdiag_is_convex_combination (rows : List (Row K)) (dof : K) (p j k : Nat
     covSDiagC rows dof p j k
       = sdLambda rows dof p * (if j = k then covFullC rows dof j j else 0)
         + (1 - sdLambda rows dof p) * covFullC rows dof j k := by
-  unfold covSDiagC covSDiagEntry delta
+  unfold covSDiagC covSDiagEntry ssShrink ssScaling sdS ssS covFullC fullNorm delta
   by_cases h : j = k
   · subst h; simp; ring
   · simp [h]; ring
 
 theorem sdiag_intensity_mem_unit (rows : List (Row K)) (dof : K) (p : Nat) :
     0 ≤ sdLambda rows dof p ∧ sdLambda rows dof p ≤ 1 := by
-  unfold sdLambda
+  unfold sdLambda ssClip ssLambRaw
+  simp only [Nat.cast_one, Nat.cast_zero]
   split
   · exact ⟨le_max_right _ _, max_le (min_le_right _ _) zero_le_one⟩
   · exact ⟨le_refl _, zero_le_one⟩
@@ -153,14 +154,14 @@ theorem eye_is_convex_combination (rows : List (Row K)) (hne : rows ≠ []) (dof
     have : rows.length ≠ 0 := fun h => hne (List.eq_nil_of_length_eq_zero h)
     exact_mod_cast this
   have hT : traceMean (covFullC rows dof) p = eyeM rows p * (rows.length : K) / dof := by
-    unfold traceMean eyeM covFullC eyeS
+    unfold traceMean eyeM lwM covFullC fullNorm eyeS lwS
     rw [rsum_eq_finset, ← Finset.sum_div, ← Finset.sum_div]
     field_simp
   have hS : covFullC rows dof j k = eyeS rows j k * (rows.length : K) / dof := by
-    unfold covFullC eyeS
+    unfold covFullC fullNorm eyeS lwS
     field_simp
   rw [hT, hS]
-  unfold covEyeC covEyeEntry eyeLambda
+  unfold covEyeC covEyeEntry lwRescale lwCombine eyeLambda
   by_cases hd : 0 < eyeD2 rows p
   · have hd' : eyeD2 rows p ≠ 0 := ne_of_gt hd
     simp only [hd, if_true]
@@ -184,7 +185,7 @@ theorem eye_intensity_mem_unit (rows : List (Row K)) (p : Nat) :
   unfold eyeLambda
   split
   · rename_i hd
-    unfold eyeB2
+    unfold eyeB2 lwB2min
     constructor
     · exact div_nonneg (le_min (le_of_lt hd) (eyeB2raw_nonneg rows p)) (le_of_lt hd)
     · rw [div_le_one hd]; exact min_le_left _ _
@@ -219,7 +220,7 @@ theorem full_psd (rows : List (Row K)) (dof : K) (hdof : 0 < dof) (p : Nat) (v :
   have h : quad p (covFullC rows dof) v
       = (rows.map (fun r => (∑ j ∈ Finset.range p, v j * r j) ^ 2)).sum / dof := by
     rw [← quad_gram]
-    unfold quad covFullC
+    unfold quad covFullC fullNorm
     rw [Finset.sum_div]
     apply Finset.sum_congr rfl; intro j _
     rw [Finset.sum_div]
@@ -358,7 +359,7 @@ theorem unbalanced_full_is_pooled_cov (obs : List (Obs K)) (p j k : Nat) :
         / ((obs.length - (uniq (labels obs)).length : Nat) : K) := by
   unfold covFromUnbalanced
   rw [(unbalanced_residuals_centered obs 0).2]
-  simp only [estimateC, covFullC, gram, residUnb, List.map_map, Option.getD_none, dofUnbalanced,
+  simp only [estimateC, covFullC, fullNorm, gram, residUnb, List.map_map, Option.getD_none, dofUnbalanced,
     condMean, colMean, colSum, groupRows, List.length_map]
   rfl
 
@@ -402,6 +403,39 @@ theorem estimate_perm (m : Method) (r1 r2 : List (Row K)) (h : r1.Perm r2) (dof 
   · funext j k; exact (hd.map _).sum_eq
   · funext j k; exact (hd.map _).sum_eq
   · exact hd.length_eq
+
+/-- the order of the observations in a dataset does not matter (`cov_from_unbalanced`,
+    every design, all methods, dof None or passed) -/
+theorem unbalanced_perm (m : Method) (o1 o2 : List (Obs K)) (h : o1.Perm o2) (dof : Option K)
+    (p : Nat) : covFromUnbalanced m o1 dof p = covFromUnbalanced m o2 dof p := by
+  unfold covFromUnbalanced
+  rw [(unbalanced_residuals_centered o1 0).2, (unbalanced_residuals_centered o2 0).2]
+  have hlen : o1.length = o2.length := h.length_eq
+  have hu : (uniq (labels o1)).length = (uniq (labels o2)).length :=
+    uniq_length_perm _ _ (h.map _)
+  have hmean : ∀ c j, colMean (groupRows o1 c) j = colMean (groupRows o2 c) j := by
+    intro c j
+    have hg : (groupRows o1 c).Perm (groupRows o2 c) := (h.filter _).map _
+    unfold colMean colSum; rw [(hg.map _).sum_eq, hg.length_eq]
+  have hr : (residUnb o1).Perm (residUnb o2) := by
+    unfold residUnb
+    have : (fun (o : Obs K) => fun j => o.2 j - colMean (groupRows o1 o.1) j)
+        = (fun o => fun j => o.2 j - colMean (groupRows o2 o.1) j) := by
+      funext o j; rw [hmean]
+    rw [this]; exact h.map _
+  rw [hlen, hu]
+  apply estimateC_congr
+  · funext j k; exact (hr.map _).sum_eq
+  · funext j k; exact (hr.map _).sum_eq
+  · exact hr.length_eq
+
+/-- … nor for `cov_from_measurements`, on the designs it accepts (both orders balanced) -/
+theorem measurements_perm (m : Method) (o1 o2 : List (Obs K)) (h : o1.Perm o2) (R1 R2 : Nat)
+    (hb1 : balancedR (groups o1) = some R1) (hb2 : balancedR (groups o2) = some R2)
+    (dof : Option K) (p : Nat) :
+    covFromMeasurements m o1 dof p = covFromMeasurements m o2 dof p := by
+  rw [measurements_eq_unbalanced_on_balanced m o1 R1 hb1,
+    measurements_eq_unbalanced_on_balanced m o2 R2 hb2, unbalanced_perm m o1 o2 h]
 
 /-! ### Precision -/
 
@@ -479,8 +513,8 @@ end examples
 /-! ### What the driver executes -/
 
 section fast
-variable {α : Type} [Add α] [Sub α] [Mul α] [Div α] [Zero α] [One α] [NatCast α]
-variable [LT α] [DecidableLT α] [Min α] [Max α] [Rsa.HasSqrt α]
+variable {α : Type} [Add α] [Sub α] [Mul α] [Div α] [Neg α] [Zero α] [One α] [NatCast α]
+variable [LT α] [DecidableLT α] [LE α] [DecidableLE α] [Min α] [Max α] [Rsa.HasSqrt α]
 
 /-- what the driver executes (tabulated rows, scalars bound once, result as data) is the
     model function the theorems are about — for every number type, `Rat` and `Float` included -/
